@@ -42,6 +42,7 @@ var gvcAPIScenarios = []gvcAPIScenario{
 	{"expression-metavariable-against-an-absent-bound", "@@\nvar s, x expression\n@@\n-s[1:x]\n+f(x)\n", "package x\n\nvar _ = t[1:]\n", false},
 	{"elision-of-a-whole-assignment-side", "@@\n@@\n-x, ... = foo()\n+... = foo()\n", "package x\n\nfunc f() {\n\tx = foo()\n}\n", true},
 	{"elision-where-none-is-supported-on-a-plus-line", "@@\n@@\n-foo(x)\n+if ... { foo(x) }\n", "package x\n\nfunc f() {\n\tfoo(x)\n}\n", true},
+	{"comment-group-emptied-by-one-change-then-an-import-added-by-the-next", "@@\nvar x, y expression\n@@\n-foo(x, y)\n+y\n\n@@\n@@\n+import \"fmt\"\n\n-2\n+fmt.Println()\n", "package a\n\nfunc f() {\n\tfoo(1, // c\n\t\t2)\n}\n", true},
 	{"elision-both-sides", "@@\n@@\n func f() {\n   ...\n-  foo()\n+  bar()\n+  baz()\n   ...\n }\n", "package a\n\nfunc f() {\n\ta()\n\tfoo()\n\tb()\n\tc()\n}\n", true},
 }
 
